@@ -458,6 +458,9 @@ def write_evidence(prop_id, tier, seed, b, rep, violations, trusted_extra=None, 
         'known_findings_reproduced': rep.known_hits,
         'build_wall_s': round(b.wall, 1),
     }
+    if level == 'translation_validation':
+        cov['programs'] = rep.evaluations                      # translation instances validated on this run
+        cov['disagreements_checked'] = len(rep.disagreements) + len(rep.oracle_failures)
     if cov['discharged'] < 1:
         del cov['discharged']     # schema: a proof-level record with nothing discharged falls back to the generic counts
     cov.update(rep.extra)
